@@ -207,6 +207,7 @@ theorem step_FreshInv (c : Cfg) (o : Op) (st : FS) (h : FreshInv st) : FreshInv 
   cases o with
   | enter s m src => exact enterChain_FreshInv c s m src _ st h
   | exit s m => exact exitOp_FreshInv c s m st h
+  | exitFail s m => exact FreshInv_push _ _ (by simp) h
 
 theorem runOps_FreshInv (c : Cfg) : ∀ (ops : List Op) (st : FS), FreshInv st → FreshInv (runOps c ops st) := by
   intro ops
@@ -352,6 +353,7 @@ theorem step_counts_other (c : Cfg) (s m : Nat) (o : Op) (st : FS)
     (step c o st).1.counts s m = st.counts s m := by
   cases o with
   | exit s' m' => simp [step, exitOp_counts]
+  | exitFail s' m' => simp [step, exitFailOp, FS.push]
   | enter s' m' src =>
     have hne : s ≠ s' ∨ m ≠ m' := by
       simp only [isSelf, isForeign, decide_eq_false_iff_not] at h1 h2
@@ -371,6 +373,7 @@ theorem step_counts_self (c : Cfg) (s m : Nat) (hR : .retry ∈ c.feats) (hnd : 
       else st.counts s m + 1 := by
   cases o with
   | exit s' m' => simp [isSelf] at h
+  | exitFail s' m' => simp [isSelf] at h
   | enter s' m' src =>
     simp only [isSelf, decide_eq_true_eq] at h
     rw [h.1, h.2.1, h.2.2]
@@ -480,6 +483,9 @@ theorem step_frame (c : Cfg) (o : Op) (m : Nat) (hne : o.model ≠ m) (st : FS) 
   cases o with
   | enter s' m' src => exact enterChain_frame c s' m' src m (fun h => hne (by simp [Op.model, h])) _ st
   | exit s' m' => exact exitOp_frame c s' m' m (fun h => hne (by simp [Op.model, h])) st
+  | exitFail s' m' =>
+    have hne' : m' ≠ m := fun h => hne (by simp [Op.model, h])
+    simp [step, exitFailOp, FS.push, plainLog, Obs.plain, ObsE.model, hne']
 
 /-! ### per-model projection -/
 
@@ -575,6 +581,10 @@ theorem step_view (c : Cfg) (o : Op) (m : Nat) (hm : o.model = m) (a b : FS) (h 
     simp only [Op.model] at hm
     subst hm
     exact ⟨exitOp_view c s m' a b h, rfl⟩
+  | exitFail s m' =>
+    simp only [Op.model] at hm
+    subst hm
+    exact ⟨ViewEq_push _ _ (by simp [Obs.plain]) h, rfl⟩
 
 theorem runOps_view (c : Cfg) (m : Nat) :
     ∀ (ops : List Op) (a b : FS), ViewEq m a b →
@@ -598,6 +608,7 @@ theorem runOps_view (c : Cfg) (m : Nat) :
 def Op.obs : Op → ObsE
   | .enter s m _ => .enterCbs s m
   | .exit s m => .exitCbs s m
+  | .exitFail s m => .exitAbort s m
 
 theorem enterChain_feature_free (c : Cfg) (s m src : Nat) (hr : (c.args s).retries = 0) :
     ∀ (l : List Mixin) (st : FS), NoRaise c s l →
@@ -645,12 +656,14 @@ theorem step_feature_free (c : Cfg) (o : Op) (st : FS) (h : FeatureFree c o.stat
   cases o with
   | enter s m src => exact (enterChain_feature_free c s m src h.1 _ st h.noRaise).2
   | exit s m => exact exitOp_plain c s m st
+  | exitFail s m => simp [step, exitFailOp, FS.push, plainLog, Obs.plain, Op.obs]
 
 theorem step_plain (c : Cfg) (o : Op) (st : FS) :
     plainLog (step c.plain o st).1.log = plainLog st.log ++ [o.obs] := by
   cases o with
   | enter s m src => simp [step, enterOp, Cfg.plain, enterChain, FS.push, plainLog, Obs.plain, Op.obs]
   | exit s m => exact exitOp_plain _ s m st
+  | exitFail s m => simp [step, exitFailOp, FS.push, plainLog, Obs.plain, Op.obs]
 
 theorem runOps_feature_free (c : Cfg) :
     ∀ (ops : List Op) (a b : FS), plainLog a.log = plainLog b.log → (∀ o ∈ ops, FeatureFree c o.state) →
@@ -690,6 +703,39 @@ theorem tagsExact (defs : List SDef) (heap : Nat → List Nat) : TagsExact defs 
   unfold builtTags
   rw [initHeap_eq]
   by_cases ha : d.accepted = true <;> simp [ha]
+
+/-! ### aborted exits, tag edits, scoped sources -/
+
+theorem trigger_veto (F : Flat) (m ev : Nat) (ms : MS) (t : Trans) (d : Nat)
+    (hf : F.trans.find? (fun t => t.ev = ev ∧ t.src = ms.cur m) = some t) (hd : t.dest = some d) :
+    (trigger F m ev ms true).2 = .vetoed ∧ (trigger F m ev ms true).1.cur = ms.cur ∧
+    (trigger F m ev ms true).1.fs = exitFailOp F.cfg t.src m ms.fs := by
+  simp only [trigger, hf, hd, if_true]
+  simp
+
+theorem isTag_setTags (c : Cfg) (s : Nat) (l : List Nat) (t : Nat) :
+    isTag (c.setTags s l) s t = true ↔ t ∈ l := by
+  simp [isTag, Cfg.setTags, effTags]
+
+theorem isTag_setTags_other (c : Cfg) (s s' : Nat) (l : List Nat) (t : Nat) (h : s' ≠ s) :
+    isTag (c.setTags s l) s' t = isTag c s' t := by
+  simp [isTag, Cfg.setTags, h]
+
+theorem map_self_noForeign (s m : Nat) (seen : List Nat) (h : ∀ x ∈ seen, x = s) :
+    (∀ o ∈ seen.map (fun x => Op.enter s m x), isForeign s m o = false) ∧
+    ((seen.map (fun x => Op.enter s m x)).filter (isSelf s m)).length = seen.length := by
+  induction seen with
+  | nil => simp
+  | cons x r ih =>
+    have hx : x = s := h x (List.mem_cons_self ..)
+    have ih' := ih (fun y hy => h y (List.mem_cons_of_mem _ hy))
+    constructor
+    · intro o ho
+      simp only [List.map_cons, List.mem_cons] at ho
+      rcases ho with rfl | ho
+      · simp [isForeign, hx]
+      · exact ih'.1 o ho
+    · simp [isSelf, hx, ih'.2]
 
 end Feat
 end TM
